@@ -87,7 +87,7 @@ def run_checks(src, props, tier="quick"):
                         k = f.get("class") or f.get("kind")
                         kinds[k] = kinds.get(k, 0) + 1
                     detail = {"failure_kinds": kinds, "broken_obligations": [b.get("kind") for b in r.get("broken_obligations", [])],
-                              "first": r.get("failures", [None])[0]}
+                              "first": (r.get("failures") or [None])[0]}
             results[p] = {"exit": rc, "violation_line": viol[0] if viol else None, "detail": detail,
                           "summary": out.strip().splitlines()[-1] if out.strip() else "", "wall_s": round(time.time() - t0)}
     finally:
